@@ -272,6 +272,8 @@ impl LanguageServer for Server {
 impl Server {
     fn set_file_content(&mut self, uri: &Url, text: &str) {
         let path = UrlExt::to_file_path(uri);
+        // running tasks hold a snapshot and read the vfs: let them finish before locking it
+        self.host.wait_for_snapshots();
         let mut vfs = self.vfs.write().unwrap();
         vfs.set_open_document(path.clone(), text.to_string());
         let file_id = vfs.assign_or_get_file_id(path);
